@@ -611,6 +611,10 @@ type MemberAccessExpression struct {
 	Member       string           `json:"member,omitempty"`
 	Kind         MemberAccessKind `json:"kind"`
 	ResolvedType Type             `json:"-"`
+	// Only meaningful when Kind is MemberAccessComputedField: whether the
+	// expression of the referenced computed field is itself a reference.
+	// Set when the computed field is resolved.
+	ComputedFieldIsReference bool `json:"-"`
 }
 
 func (e *MemberAccessExpression) _expression() {}
@@ -618,6 +622,14 @@ func (e *MemberAccessExpression) GetResolvedType() Type {
 	return e.ResolvedType
 }
 func (e *MemberAccessExpression) IsReference() bool {
+	if e.Target != nil && !e.Target.IsReference() {
+		// a member of a temporary does not outlive it
+		return false
+	}
+	if e.Kind == MemberAccessComputedField {
+		// a computed field is a value unless its own expression is a reference
+		return e.ComputedFieldIsReference
+	}
 	return true
 }
 
@@ -633,7 +645,8 @@ func (e *SubscriptExpression) GetResolvedType() Type {
 	return e.ResolvedType
 }
 func (e *SubscriptExpression) IsReference() bool {
-	return true
+	// an element lives as long as the vector, array or map it belongs to
+	return e.Target != nil && e.Target.IsReference()
 }
 
 type SubscriptArgument struct {
